@@ -788,34 +788,75 @@ Proof.
       * apply Hok.
 Qed.
 
-Fixpoint only_finds (ops : list op) : Prop :=
-  match ops with
-  | [] => True
-  | OAdd _ :: _ => False
-  | OFind _ _ _ :: r => only_finds r
-  end.
+Lemma st_add_ok s e : memo_ok (st_add s e).
+Proof. intros owner D t r. cbn. discriminate. Qed.
 
-Lemma run_finds s ops :
-  memo_ok s -> only_finds ops -> fst (run_ops s ops) = plain_ops (st_graph s) ops.
+(* memoised lookups answer what plain lookups answer, however lookups and recordings of
+   prices are interleaved *)
+Lemma run_ops_plain ops : forall s,
+  memo_ok s -> fst (run_ops s ops) = plain_ops (st_graph s) ops.
 Proof.
-  revert s. induction ops as [|o ops IH]; intros s Hok Hf; [reflexivity|].
-  destruct o as [e|a b D]; [destruct Hf|]. cbn [run_ops plain_ops only_finds] in *.
-  destruct (st_find_ok s a b D Hok) as (H1 & H2 & H3).
-  destruct (st_find s a b D) as [x s'] eqn:F. cbn [fst snd] in *.
-  specialize (IH s' H3 Hf). destruct (run_ops s' ops) as [xs s''] eqn:R. cbn [fst] in *.
-  rewrite H1, IH, H2. reflexivity.
+  induction ops as [|o ops IH]; intros s Hok; [reflexivity|].
+  destruct o as [e|a b D]; cbn [run_ops plain_ops].
+  - rewrite (IH (st_add s e) (st_add_ok s e)). reflexivity.
+  - destruct (st_find_ok s a b D Hok) as (H1 & H2 & H3).
+    destruct (st_find s a b D) as [x s'] eqn:F. cbn [fst snd] in *.
+    specialize (IH s' H3). destruct (run_ops s' ops) as [xs s''] eqn:R. cbn [fst] in *.
+    rewrite H1, IH, H2. reflexivity.
 Qed.
 
-Lemma memo_clear_nil owner : memo_clear [] owner = [].
-Proof. reflexivity. Qed.
+Lemma run_ops_transparent g ops : fst (run_ops (mkState g []) ops) = plain_ops g ops.
+Proof. apply (run_ops_plain ops (mkState g [])). intros owner D t r. cbn. discriminate. Qed.
 
-Lemma run_adds_then_finds adds finds g :
-  only_finds finds ->
-  fst (run_ops (mkState g []) (map OAdd adds ++ finds)) = plain_ops g (map OAdd adds ++ finds).
+(* the journal-level form: loading a journal with lookups in it leaves a consistent memo and
+   the same graph as loading it without them *)
+Lemma load_ok l : forall s, memo_ok s -> memo_ok (load s l).
 Proof.
-  intros Hf. revert g. induction adds as [|e adds IH]; intros g; cbn [map app].
-  - apply run_finds; [|exact Hf]. intros owner D t r. cbn. discriminate.
-  - cbn [run_ops plain_ops]. unfold st_add. cbn [st_graph st_memo]. rewrite memo_clear_nil. apply IH.
+  induction l as [|j l IH]; intros s Hok; [exact Hok|]. destruct j as [i|a b D]; cbn [load].
+  - apply IH. destruct (entry_of i); [apply st_add_ok | exact Hok].
+  - apply IH. apply (st_find_ok s a b D Hok).
+Qed.
+
+Lemma load_graph l : forall s, memo_ok s ->
+  st_graph (load s l) = fold_left add_entry (history_of (items_of l)) (st_graph s).
+Proof.
+  induction l as [|j l IH]; intros s Hok; [reflexivity|]. destruct j as [i|a b D]; cbn [load items_of history_of].
+  - destruct (entry_of i) as [e|].
+    + rewrite (IH _ (st_add_ok s e)). reflexivity.
+    + apply IH. exact Hok.
+  - destruct (st_find_ok s a b D Hok) as (_ & H2 & H3). rewrite (IH _ H3), H2. reflexivity.
+Qed.
+
+Lemma convert_memo_plain s a t D prim :
+  memo_ok s ->
+  fst (convert_memo s a t D) = convert (st_graph s) prim a (Some t) D /\
+  st_graph (snd (convert_memo s a t D)) = st_graph s /\ memo_ok (snd (convert_memo s a t D)).
+Proof.
+  intros Hok. unfold convert_memo, convert. rewrite value_X_spec.
+  destruct (comm_eqb (hc a) t); [cbn [fst snd]; repeat split; exact Hok|].
+  destruct (st_find_ok s (hc a) t D Hok) as (H1 & H2 & H3).
+  destruct (st_find s (hc a) t D) as [[p|] s'] eqn:F; cbn [fst snd] in *; rewrite <- H1;
+    repeat split; assumption.
+Qed.
+
+Lemma convert_all_memo_plain l : forall s t D prim b,
+  memo_ok s ->
+  convert_all_memo s l t D b =
+  nonzero (fold_left (fun b a => let r := convert (st_graph s) prim a (Some t) D in acc_add b (snd r) (fst r)) l b).
+Proof.
+  induction l as [|a l IH]; intros s t D prim b Hok; cbn [convert_all_memo fold_left]; [reflexivity|].
+  destruct (convert_memo_plain s a t D prim Hok) as (H1 & H2 & H3).
+  destruct (convert_memo s a t D) as [x s'] eqn:C. cbn [fst snd] in *.
+  rewrite (IH s' t D prim _ H3), H2, H1. reflexivity.
+Qed.
+
+Lemma bal_row_memo_plain l held t D :
+  bal_row_memo l held t D = bal_row (items_of l) held (Some t) D.
+Proof.
+  unfold bal_row_memo, bal_row, convert_all.
+  assert (Hok : memo_ok (mkState [] [])) by (intros owner D' t' r; cbn; discriminate).
+  rewrite (convert_all_memo_plain held _ t D (prims (history_of (items_of l))) [] (load_ok l _ Hok)).
+  rewrite (load_graph l _ Hok). reflexivity.
 Qed.
 
 (* ------------------------------------------------------------------ assembled statements *)
